@@ -125,3 +125,49 @@ func VerifWriterLocked(r *Router) bool {
 	}
 	return true
 }
+
+// VerifNodesRouter / VerifNodesTxn / VerifNodesIter list every node reachable from the roots in depth-first order as
+// "<address>=<key hex>,<leaf pattern hex|->,<child addresses joined by '+'>", entries separated by ';'. Addresses are
+// identities only (never dereferenced by the caller); they let the harness check at cell level that the nodes of a
+// published tree are never written again.
+func VerifNodesRouter(r *Router) string { return verifNodes(r.getRoot().root) }
+
+func VerifNodesTxn(txn *Txn) string {
+	if txn.rootTxn == nil {
+		return ""
+	}
+	return verifNodes(txn.rootTxn.root)
+}
+
+func VerifNodesIter(it Iter) string { return verifNodes(it.root) }
+
+func verifNodes(rs roots) string {
+	var sb strings.Builder
+	var walk func(n *node)
+	walk = func(n *node) {
+		sb.WriteString(strconv.FormatUint(uint64(uintptr(unsafe.Pointer(n))), 16))
+		sb.WriteByte('=')
+		sb.WriteString(verifHex(n.key))
+		sb.WriteByte(',')
+		if n.route != nil {
+			sb.WriteString(verifHex(n.route.pattern))
+		} else {
+			sb.WriteByte('-')
+		}
+		sb.WriteByte(',')
+		for i, c := range n.children {
+			if i > 0 {
+				sb.WriteByte('+')
+			}
+			sb.WriteString(strconv.FormatUint(uint64(uintptr(unsafe.Pointer(c))), 16))
+		}
+		sb.WriteByte(';')
+		for _, c := range n.children {
+			walk(c)
+		}
+	}
+	for _, n := range rs {
+		walk(n)
+	}
+	return sb.String()
+}
